@@ -109,7 +109,7 @@ func genC15(r *Rng, tier string, idx int) *Plan {
 	case 2: // claims of unexpected type in honestly signed tokens
 		p.Mode = "claim-types"
 		pr := typeProductions[(idx/6)%len(typeProductions)]
-		on := r.Pick([]string{"login", "refresh"})
+		on := r.Pick([]string{"login", "refresh", "both"}) // (both: the stored token and the refreshed one carry the same unusual claim)
 		p.Ops = append(p.Ops, Op{ID: nid(), Kind: "idp", Args: map[string]string{"byz": pr, "byz_on": on}}, Op{ID: nid(), Kind: "nav", Path: t},
 			Op{ID: nid(), Kind: "adv", D: 400}, Op{ID: nid(), Kind: "send", Path: t, S: "own"}, Op{ID: nid(), Kind: "send", Path: t, S: "own"})
 	case 3: // malformed JWKS / discovery documents
